@@ -87,7 +87,7 @@ def conf (w : World) : Ty → Obj → Bool
   | .opt t, x => conf w t x
   | .wrap _ t, x => conf w t x
   | .cls c, .inst c' fs => c == c' && confF w (w.fields c) fs
-  | .td c, .dict kvs => confTD w (w.fields c) kvs && nodupPy (keysOf kvs)
+  | .td c, .dict kvs => confTD w (w.fields c) kvs
   | _, _ => false
 termination_by t x => (sizeOf x, sizeOf t)
 def confL (w : World) (t : Ty) : List Obj → Bool
